@@ -72,7 +72,18 @@ def run(F, R):
     R.check(okp, "C01.R1", "sql:every-partition-result-?", "a failed partition's error is not propagated", sq.loc(), dict())
     # partitions driven: Range{0, max(output_partitions(physical),1)} mapped to execute(partition_id)
     rng = [(i, rv) for i, j, dst, rv, line in sq.stmts() if rv[0] == "agg" and rv[1] == "adt:std::ops::Range"]
-    okr = any(op_const(rv[2][0]) == 0 and "output_partitions(" in k9.kexpr(sq, rv[2][1]) for i, rv in rng)
+    okr = False
+    OP = "physical::plan::PhysicalOperator::output_partitions("
+    for i, rv in rng:
+        e = k9.kexpr(sq, rv[2][1])
+        if op_const(rv[2][0]) != 0 or OP not in e:
+            continue
+        while e.startswith("max("):
+            e = e[4:]
+        if e.startswith(OP):
+            okr = True
+        elif not e.startswith(("min(", "#")):
+            R.undecided("C01.R1", "sql:partition-range-shape", f"upper bound of the partition range has an unrecognised shape: {e[:80]}", sq.loc(i))
     exe = [c for g in F.family(CTX + "::sql") for c in g.calls() if c.callee == "physical::plan::PhysicalOperator::execute"]
     okx = bool(exe) and all(origin(c.fn, c.args[1])[0] != "const" for c in exe)
     R.check(okr and okx, "C01.R1", "sql:drives-0..output_partitions", "sql() does not drive every declared output partition of the root operator", sq.loc(), dict(ranges=len(rng), execute_sites=len(exe)))
